@@ -85,6 +85,8 @@ class GBS(Gaussian):
 
         # there should be only Fock measurements in B
         measured = set()
+        select = {}
+        dark_counts = {}
         for cmd in B:
             if not isinstance(cmd.op, ops.MeasureFock):
                 raise CircuitError("The Fock measurements are not consecutive.")
@@ -95,6 +97,23 @@ class GBS(Gaussian):
                 raise CircuitError("Measuring the same mode more than once.")
             measured |= temp
 
+            # post-selection values and dark counts belong to the modes they were given for
+            if cmd.op.select is not None:
+                select.update({r.ind: v for r, v in zip(cmd.reg, cmd.op.select)})
+            if cmd.op.dark_counts is not None:
+                dark_counts.update({r.ind: v for r, v in zip(cmd.reg, cmd.op.dark_counts)})
+
         # replace B with a single Fock measurement
-        B = [Command(ops.MeasureFock(), sorted(list(measured), key=lambda x: x.ind))]
+        measured = sorted(list(measured), key=lambda x: x.ind)
+        if select and (dark_counts or len(select) != len(measured)):
+            raise CircuitError(
+                "Post-selected Fock measurements can only be combined if every measured mode "
+                "is post-selected and no dark counts are used."
+            )
+        options = {}
+        if select:
+            options["select"] = [select[r.ind] for r in measured]
+        if dark_counts:
+            options["dark_counts"] = [dark_counts.get(r.ind, 0) for r in measured]
+        B = [Command(ops.MeasureFock(**options), measured)]
         return super().compile(A + B, registers)
